@@ -862,6 +862,17 @@ hwloc__xml_import_object(hwloc_topology_t topology,
     goto error_with_object;
   }
 
+  /* check that bridge types are valid (and were given), only PCI is supported downstream */
+  if (obj->type == HWLOC_OBJ_BRIDGE
+      && (obj->attr->bridge.downstream_type != HWLOC_OBJ_BRIDGE_PCI
+	  || (obj->attr->bridge.upstream_type != HWLOC_OBJ_BRIDGE_HOST
+	      && obj->attr->bridge.upstream_type != HWLOC_OBJ_BRIDGE_PCI))) {
+    if (hwloc__xml_verbose())
+      fprintf(stderr, "%s: invalid bridge with upstream type %d and downstream type %d\n",
+	      state->global->msgprefix, (int) obj->attr->bridge.upstream_type, (int) obj->attr->bridge.downstream_type);
+    goto error_with_object;
+  }
+
   /* check special types vs cpuset+nodeset */
   if ((!obj->cpuset || !obj->nodeset || !obj->complete_cpuset || !obj->complete_nodeset)
       && !hwloc__obj_type_is_special(obj->type)) {
